@@ -94,6 +94,36 @@ def oracle(ctx, tag, idk, pre, n, items, out):
                 continue
             if k != j:
                 ctx.fail("oracle", "http-batch-entry-misplaced", case, "entry %d holds the answer to request %d: %s" % (j, k, out))
+    # every filled entry must be justified by a reply element bearing THAT entry's own id (the batch's ids are pre..pre+n-1 in
+    # the client's id kind) and carrying exactly that payload: an id outside the batch never fills an entry
+    if all(":" in it and it[0] in "pnsz" for it in items):
+        have = {}
+
+        def numeric(i):
+            """the client's own reading of a reply id inside a batch (Id::try_parse_inner_as_number): a number, or a string that
+            Rust's u64::from_str accepts (optional '+', ASCII digits, <= u64::MAX); None when it has no such reading"""
+            if i[0] == "n":
+                return i[1] if i[1] < 2 ** 64 else None
+            if i[0] == "s":
+                t = i[1][1:] if i[1][:1] == b"+" else i[1]
+                if t and all(48 <= c <= 57 for c in t) and int(t) < 2 ** 64:
+                    return int(t)
+            return None
+        for it in items:
+            spec, _, payload = it.partition(":")
+            have.setdefault(numeric(_spec_id(spec, idk, pre)), []).append(payload)
+        have.pop(None, None)
+        for j, e in enumerate(ents):
+            own = pre + j
+            if e.startswith("ok:"):
+                if ("r" + e[3:]) not in have.get(own, []):
+                    ctx.fail("oracle", "http-batch-entry-filled-with-foreign-answer", case,
+                             "entry %d (id %r) reports %s but the reply holds no result %s for that id: %s" % (j, own, e, e[3:], out))
+            elif e.startswith("call:") and not e.startswith("call:0::"):
+                code, msg = e.split(":")[1:3]
+                if not any(pl.startswith("e%s:%s:" % (code, msg or "-")) for pl in have.get(own, [])):
+                    ctx.fail("oracle", "http-batch-entry-filled-with-foreign-answer", case,
+                             "entry %d (id %r) reports %s but the reply holds no such error for that id: %s" % (j, own, e, out))
     if tag == "perm" and any(not (e.startswith("ok:") or (e.startswith("call:") and not e.startswith("call:0::"))) for e in ents):
         ctx.fail("oracle", "http-batch-complete-reply-has-placeholder", case, out)
 
